@@ -17,7 +17,7 @@ const SPEC: Spec = Spec {
         "the padding reference implements the standard integer padding rules and is validated at start-up against i128/u128 formatting for every spec",
         "refint Horner evaluation is trusted; cross-checked against Python on a transcript slice",
     ],
-    bounds_quick: "V1 every integer < 65536 x radix 2..=36 (text) and 2..=256 (digits); V2 Dense(S5,3) x all radices; V3 r^k-1,r^k,r^k+1 for k <= 3*power(r)+2 and at 62..66 / 127..130 native digits, all radices 2..=36 text and 2..=256 digits; V4 12 patterns x every length 1..=70 and {100,129,257} x all radices; V6 dense LCG values of every length 1..=70; V5 big-base powers, all radices; F 276 specs x 5 pinned traits (+ Debug, informational) x 16 values; P1 all strings of length <= 5 over 12 symbols (+bytes <= 4 over 14 byte values); P2 well-formed long inputs, all radices 2..=36; P3 all radices 2..=256; V7 values of 300 and 1100 native digits (dense, all-ones, power of two) x 12 radices",
+    bounds_quick: "V8 radix-sparse long values: 6 radices x 4 windows x every alignment of two super-chunks at 66+ native digits; V1 every integer < 65536 x radix 2..=36 (text) and 2..=256 (digits); V2 Dense(S5,3) x all radices; V3 r^k-1,r^k,r^k+1 for k <= 3*power(r)+2 and at 62..66 / 127..130 native digits, all radices 2..=36 text and 2..=256 digits; V4 12 patterns x every length 1..=70 and {100,129,257} x all radices; V6 dense LCG values of every length 1..=70; V5 big-base powers, all radices; F 276 specs x 5 pinned traits (+ Debug, informational) x 16 values; P1 all strings of length <= 5 over 12 symbols (+bytes <= 4 over 14 byte values); P2 well-formed long inputs, all radices 2..=36; P3 all radices 2..=256; V7 values of 300 and 1100 native digits (dense, all-ones, power of two) x 12 radices",
     bounds_thorough: "V1 every integer < 2^18; V2; V3 also at 255..258 and 400 native digits; V4 30 lengths up to 1025 (every sqrt boundary of the big-base target length); V5; F; P1 length <= 6 (bytes <= 5); P2; P3; V7 up to 4099 digits",
     hang_secs: 180,
     probes: Some(probes),
@@ -599,6 +599,45 @@ fn body(ctx: &mut Ctx) {
                 }
             }
             ctx.sample(|| format!("radix {}: (base^(2^t))^j and +-1 for t in {{3,4}} at 62..140 native digits", r));
+        }
+    }
+    // V8: values that are sparse *in the output radix*: a short window of radix-r digits slid through every alignment of
+    // two super-chunks (8 chunks of `power` digits each at 64..255 native digits) below a fixed top part that keeps the
+    // value on the big-base path.  The intermediate remainders of the chunked conversion (a super-chunk remainder that
+    // shrinks to one native digit, a chunk that is exactly 1 or exactly base-1, a run of zero chunks starting anywhere)
+    // depend on that alignment, which no binary-structured family controls.
+    if ctx.space("V8") {
+        let rads: [u32; 6] = [10, 3, 7, 36, 100, 255];
+        for (i, &r) in rads.iter().enumerate() {
+            if !ctx.mine(i as u64) {
+                continue;
+            }
+            let (base, power) = power_of(r as u64);
+            let rn = Nat::from_u64(r as u64);
+            let span = 2 * 8 * power + 3;
+            let mut top = Nat::from_u64(987654321);
+            let mut nd = 0usize;
+            while top.len() < 66 || nd < span + 2 * power + 1 {
+                top = top.mul(&rn);
+                nd += 1;
+            }
+            let tr: Vec<u32> = if r <= 36 { vec![r] } else { vec![] };
+            let b = Nat::from_u64(base);
+            let windows: Vec<Nat> = vec![
+                Nat::one(),
+                b.add(&Nat::from_u64(base / 5 + 7)),
+                b.mul(&Nat::from_u64(r as u64 - 1)).add(&Nat::from_u64(base - 1)),
+                b.add(&b),
+            ];
+            let mut rp = Nat::one();
+            for _p in 0..span {
+                for w in &windows {
+                    let v = top.add(&w.mul(&rp));
+                    out_value(ctx, &Int::new(false, v), &tr, &[r]);
+                }
+                rp = rp.mul(&rn);
+            }
+            ctx.sample(|| format!("radix {}: 987654321*r^{} + w*r^p for 4 windows w (1, chunk 1 + small chunk, max digit + max chunk, chunk 2) x every p < {} (all alignments of two super-chunks), {} native digits", r, nd, span, top.len()));
         }
     }
     // F: formatting flags
